@@ -89,6 +89,18 @@ def run_case(case):
             res["fails"].append(("body-entered-despite-parse-error", {"exception": type(e).__name__}))
     if out[0] == "ok":
         res["changed"] = not oracle.equal(out[1], x)
+        if opts.get("collect_errors") and entry not in ("call", "transform"):
+            # "when parsing fails no instance is created and the body is not entered": collecting must not turn a failure into a success
+            o2 = {k: v for k, v in opts.items() if k not in ("collect_errors", "max_errors")}
+            try:
+                fn2 = entries.build_entry(entry, T, o2)
+                out2 = oracle.outcome(fn2, codec.decode(vs), line_budget=b)
+            except decl_errors():
+                out2 = ("ok", None)
+            if out2[0] == "perr":
+                flags = getattr(fn, "flags", None)
+                res["fails"].append((f"invalid-input-accepted-under-collect_errors/{entry}{'/body-entered' if flags and flags.get('entered') else ''}",
+                                     {"fail_fast_error": str(out2[1])[:200], "result": codec.encode(out[1]) if out[1] is not entries.ABSENT else "<absent>"}))
     return res
 
 
